@@ -14,7 +14,7 @@ import (
 // ---- C06a ---------------------------------------------------------------------
 
 var profData = Profile{
-	Kinds:     kinds(EvStep, 10, EvDeliver, 4, EvDrain, 1, "data", 8, EvSpineWrite, 5, EvApprove, 2, EvAdvance, 1, EvDup, 0),
+	Kinds:     kinds(EvStep, 10, EvDeliver, 4, EvDrain, 1, EvBurst, 4, "data", 8, EvSpineWrite, 6, EvApprove, 2, EvAdvance, 1, EvDup, 0),
 	MinEvents: 4, MaxEvents: 40, Prefix: 16, Trust: []string{"paired", "auto", "none", "none"},
 }
 
